@@ -65,7 +65,7 @@ var (
 )
 
 // poolChainFor builds (once per zone) a head block whose state funds the zone's Quai keys.
-func poolChainFor(t *rapid.T, loc common.Location) *poolChain {
+func poolChainFor(t fataler, loc common.Location) *poolChain {
 	poolChainMu.Lock()
 	defer poolChainMu.Unlock()
 	if c, ok := poolChains[loc.Name()]; ok {
